@@ -17,13 +17,14 @@ EXTENDS ArkWorld, Json, IOUtils
 
 Trace == ndJsonDeserialize(IOEnv.TRACE_FILE)
 
-VARIABLES l,      \* next line
+VARIABLES rg,     \* registry history (C18): [types: Seq(token), res: set of tokens, locked]
+          l,      \* next line
           w,      \* the layer-A world
           skip,   \* skipping to the next reset after a disagreement / undefined op
           viol,   \* violations found so far
           seqno   \* number of the current sequence (reset events seen)
 
-tvars == <<l, w, skip, viol, seqno>>
+tvars == <<l, w, skip, viol, seqno, rg>>
 
 V(cls, d) == [l |-> l, seq |-> seqno, cls |-> cls, d |-> ToString(d)]
 
@@ -366,9 +367,47 @@ CheckStats(ev) ==
        \cup (IF ev.stats # ev.twin THEN {V("C19.incremental", <<"incremental and one-shot statistics differ">>)} ELSE {})
 
 (***************************************************************************)
+(* Type registries and resources (C18): one "reg" event per step.          *)
+(***************************************************************************)
+RegStep(ev) ==
+    LET known == \E i \in DOMAIN rg.types : rg.types[i] = ev.t
+        idx == CHOOSE i \in DOMAIN rg.types : rg.types[i] = ev.t
+        n == Len(rg.types)
+        R(vs, nrg) == [vs |-> vs, rg |-> nrg]
+    IN
+    CASE ev.op = "Lock" -> R({}, [rg EXCEPT !.locked = TRUE])
+      [] ev.op = "Unlock" -> R({}, [rg EXCEPT !.locked = FALSE])
+      [] ev.op = "RegType" ->
+            IF known
+            THEN R((IF ev.panic \/ ev.id # idx - 1 THEN {V("C18.id-unstable", <<ev.t, ev.id, idx - 1>>)} ELSE {})
+                   \cup (IF ev.count # n THEN {V("C18.id-consumed", ev.count)} ELSE {}), rg)
+            ELSE IF n >= ev.max
+            THEN R((IF ~ev.panic THEN {V("C18.limit", <<ev.t, ev.id>>)} ELSE {})
+                   \cup (IF ev.count # n THEN {V("C18.id-consumed", ev.count)} ELSE {}), rg)
+            ELSE IF rg.locked
+            THEN R((IF ~ev.panic THEN {V("C18.locked-registration", <<ev.t, ev.id>>)} ELSE {})
+                   \cup (IF ev.count # n THEN {V("C18.id-consumed", ev.count)} ELSE {}), rg)
+            ELSE R((IF ev.panic THEN {V("C18.capacity-unusable", <<"registration", n + 1, ev.msg>>)}
+                    ELSE IF ev.id # n THEN {V("C18.id-unstable", <<ev.t, ev.id, n>>)} ELSE {})
+                   \cup (IF ~ev.panic /\ ev.count # n + 1 THEN {V("C18.id-consumed", ev.count)} ELSE {}),
+                   IF ev.panic THEN rg ELSE [rg EXCEPT !.types = Append(@, ev.t)])
+      [] ev.op = "Use" ->   \* registered types are usable in entities, filters and queries
+            R(IF ev.panic \/ ~ev.ok THEN {V("C18.capacity-unusable", <<ev.ids, ev.msg>>)} ELSE {}, rg)
+      [] ev.op = "ResAdd" ->
+            R(IF ev.panic # (ev.t \in rg.res) THEN {V("C18.resource", <<"add", ev.t, ev.panic>>)} ELSE {},
+              IF ev.panic THEN rg ELSE [rg EXCEPT !.res = @ \cup {ev.t}])
+      [] ev.op = "ResRemove" ->
+            R(IF ev.panic # (ev.t \notin rg.res) THEN {V("C18.resource", <<"remove", ev.t, ev.panic>>)} ELSE {},
+              IF ev.panic THEN rg ELSE [rg EXCEPT !.res = @ \ {ev.t}])
+      [] ev.op \in {"ResHas", "ResGet"} ->
+            R(IF ev.panic \/ ev.ok # (ev.t \in rg.res) THEN {V("C18.resource", <<ev.op, ev.t, ev.ok>>)} ELSE {}, rg)
+      [] OTHER -> R({}, rg)
+
+(***************************************************************************)
 (* The monitor's state machine.                                            *)
 (***************************************************************************)
-TInit == /\ l = 1 /\ w = NewWorld({}) /\ skip = TRUE /\ viol = <<>> /\ seqno = 0
+RgInit == [types |-> <<>>, res |-> {}, locked |-> FALSE]
+TInit == /\ l = 1 /\ w = NewWorld({}) /\ skip = TRUE /\ viol = <<>> /\ seqno = 0 /\ rg = RgInit
 
 SetToSeq(S) == LET RECURSIVE G(_) G(T) == IF T = {} THEN <<>> ELSE LET x == CHOOSE y \in T : TRUE IN <<x>> \o G(T \ {x}) IN G(S)
 
@@ -377,21 +416,26 @@ TNext ==
     /\ l' = l + 1
     /\ LET ev == Trace[l] IN
        CASE ev.k = "reset" ->
-                /\ w' = NewWorld(SetOf(ev.rel)) /\ skip' = FALSE /\ seqno' = seqno + 1 /\ viol' = viol
+                /\ w' = NewWorld(SetOf(ev.rel)) /\ skip' = FALSE /\ seqno' = seqno + 1 /\ viol' = viol /\ rg' = RgInit
          [] ev.k = "op" /\ ~skip ->
                 LET r == CheckOp(ev) IN
                 /\ viol' = viol \o SetToSeq(r.vs)
                 /\ skip' = (r.vs # {} \/ ~r.def)
                 /\ w' = r.next
-                /\ seqno' = seqno
+                /\ seqno' = seqno /\ rg' = rg
          [] ev.k = "probe" /\ ~skip ->
                 LET vs == CheckProbe(ev) IN
                 /\ viol' = viol \o SetToSeq(vs)
-                /\ UNCHANGED <<w, skip, seqno>>
+                /\ UNCHANGED <<w, skip, seqno, rg>>
          [] ev.k = "stats" /\ ~skip ->
                 /\ viol' = viol \o SetToSeq(CheckStats(ev))
+                /\ UNCHANGED <<w, skip, seqno, rg>>
+         [] ev.k = "reg" ->
+                LET r == RegStep(ev) IN
+                /\ viol' = viol \o SetToSeq(r.vs)
+                /\ rg' = r.rg
                 /\ UNCHANGED <<w, skip, seqno>>
-         [] OTHER -> UNCHANGED <<w, skip, viol, seqno>>
+         [] OTHER -> UNCHANGED <<w, skip, viol, seqno, rg>>
 
 TSpec == TInit /\ [][TNext]_tvars
 
